@@ -377,6 +377,8 @@ func (mr *memRepo) BlobCreate(opts ...BlobOpt) (BlobCreator, string, error) {
 			ok = false
 		}
 		if ok {
+			// the content was pushed again, restart the GC grace period
+			b.m.mod = time.Now()
 			return nil, "", types.ErrBlobExists
 		}
 	}
